@@ -423,7 +423,12 @@ Section SparseInv.
           -- apply set_nth_Forall; [exact It|apply idle_ok; exact Hvq].
           -- constructor; [|exact Ig]. destruct rq; try exact I. cbn.
              destruct (N.eqb c code_bare_eof); exact I.
-      + (* WriteAt *)
+      + (* OpenFile + WriteAt *)
+        destruct (s_nofile s).
+        { (* the cache file's path is gone: the load fails, nothing changes *)
+          inversion E; subst s'. left. unfold finish. rewrite Eq. constructor; cbn; auto.
+          - apply set_nth_Forall; [exact It|apply idle_ok; exact Hvq].
+          - constructor; [destruct rq; exact I|exact Ig]. }
         inversion Htodo as [|? ? Hi Htodo']; subst. inversion E; subst s'. clear E.
         pose proof (nth_row i Hi) as Hn.
         destruct (write_good H idx blob Hd (s_file s) i _ Il Hn) as [Hl' [Hgi Hmono]].
@@ -517,9 +522,11 @@ Section SparseInv.
     intros [Il Id Is It Ig].
     destruct all_null_zero as [Hz|C]; [|right; exact C]. left.
     unfold restart. rewrite Lb_eq. fold n.
-    set (cache := match m_cache m with CKeep => s_file s | CAbsent => [] | CResize k => resize (s_file s) k end).
+    set (cache := if s_nofile s then [] else
+                  match m_cache m with CKeep => s_file s | CAbsent => [] | CResize k => resize (s_file s) k end).
     assert (Hcache : forall q, nth q cache 0%N = 0%N \/ nth q cache 0%N = nth q (s_file s) 0%N).
-    { intros q. unfold cache. destruct (m_cache m) as [| |k]; [right; reflexivity|left; destruct q; reflexivity|].
+    { intros q. unfold cache. destruct (s_nofile s); [left; destruct q; reflexivity|].
+      destruct (m_cache m) as [| |k]; [right; reflexivity|left; destruct q; reflexivity|].
       rewrite nth_resize. destruct (q <? k)%nat; [right; reflexivity|left; reflexivity]. }
     (* ranges of null rows are zero in the old file, hence in whatever is made of it *)
     assert (Hnull : forall f', length f' = Lb -> (forall q, nth q f' 0%N = 0%N \/ nth q f' 0%N = nth q (s_file s) 0%N) ->
@@ -538,7 +545,8 @@ Section SparseInv.
       apply andb_true_iff in Euse. destruct Euse as [El Eu]. apply Nat.eqb_eq in El.
       destruct (s_saved s) as [b|] eqn:Esaved; [|discriminate].
       assert (Hc : cache = s_file s \/ Lb = 0%nat).
-      { unfold cache in *. destruct (m_cache m) as [| |k]; [left; reflexivity|right; cbn in El; lia|].
+      { unfold cache in *. destruct (s_nofile s); [right; cbn in El; lia|].
+        destruct (m_cache m) as [| |k]; [left; reflexivity|right; cbn in El; lia|].
         left. rewrite resize_length in El. subst k. apply resize_same. exact Il. }
       assert (Hb : forall i, nth i b false = true -> good cache i).
       { intros i Hi. destruct Hc as [->|H0]; [exact (Is b eq_refl i Hi)|intros r Hn; exfalso; exact (no_rows H0 i r Hn)]. }
@@ -582,7 +590,7 @@ Section SparseInv.
   Lemma step_inv s l s' : SInv s -> step idx nullid store s l = Some s' -> SInv s' \/ Collision H.
   Proof.
     intros Hinv E.
-    destruct l as [k|k rq|m]; cbn [step] in E.
+    destruct l as [k|k rq|m|m|]; cbn [step] in E.
     - destruct (s_crashed s); [discriminate|]. exact (tstep_inv s k s' Hinv E).
     - destruct (s_crashed s || negb (valid_request idx rq)) eqn:Ev; [discriminate|].
       apply orb_false_iff in Ev. destruct Ev as [_ Ev]. apply negb_false_iff in Ev.
@@ -596,6 +604,8 @@ Section SparseInv.
         destruct (queue th) as [|rq0 q0]; [contradiction|exact D].
       + apply Forall_app. split; [exact It|]. constructor; [|constructor]. apply idle_ok. constructor; [exact Ev|constructor].
     - inversion E; subst s'. apply restart_inv. exact Hinv.
+    - inversion E; subst s'. apply restart_inv. exact Hinv.
+    - inversion E; subst s'. left. destruct Hinv as [Il Id Is It Ig]. constructor; cbn; assumption.
   Qed.
 End SparseInv.
 
@@ -695,7 +705,7 @@ Section NoPanic.
     - destruct (store (s_calls s) (r_id (nth i idx row0))) as [d|c].
       + destruct (length d =? 0)%nat; inversion E; subst s'; [unfold finish; rewrite Eq|]; exact Hc.
       + inversion E; subst s'. unfold finish. rewrite Eq. exact Hc.
-    - inversion E; subst s'. exact Hc.
+    - destruct (s_nofile s); inversion E; subst s'; [unfold finish; rewrite Eq|]; exact Hc.
     - inversion E; subst s'. exact Hc.
     - destruct rq as [off len|i|].
       + destruct (length idx =? 0)%nat eqn:En0; [inversion E; subst s'; exact Hc|].
@@ -710,12 +720,15 @@ Section NoPanic.
 
   Lemma step_no_panic s l s' : s_crashed s = false -> step idx nullid store s l = Some s' -> s_crashed s' = false.
   Proof.
-    intros Hc E. destruct l as [k|k rq|m]; cbn [step] in E.
+    intros Hc E. destruct l as [k|k rq|m|m|]; cbn [step] in E.
     - rewrite Hc in E. exact (tstep_no_panic s k s' Hc E).
     - destruct (s_crashed s || negb (valid_request idx rq)); [discriminate|].
       destruct (nth_error (s_threads s) k); inversion E; subst s'; exact Hc.
     - inversion E; subst s'. unfold restart.
       match goal with |- context [if ?c then _ else _] => destruct c end; reflexivity.
+    - inversion E; subst s'. unfold restart.
+      match goal with |- context [if ?c then _ else _] => destruct c end; reflexivity.
+    - inversion E; subst s'. exact Hc.
   Qed.
 End NoPanic.
 
@@ -829,7 +842,11 @@ Section Retry.
           -- apply set_nth_Forall; [exact Rt|exact I].
           -- constructor; [|exact Rl]. destruct rq; try exact I. cbn.
              destruct (N.eqb c code_bare_eof); exact I.
-      + inversion E; subst s'. constructor; cbn; auto.
+      + destruct (s_nofile s).
+        { inversion E; subst s'. unfold finish. rewrite Eq. constructor; cbn; auto.
+          - apply set_nth_Forall; [exact Rt|exact I].
+          - constructor; [destruct rq; exact I|exact Rl]. }
+        inversion E; subst s'. constructor; cbn; auto.
         apply set_nth_Forall; [exact Rt|]. unfold thread_r. cbn [pc queue]. rewrite Eq. split; [discriminate|]. split; [exact Hp|].
         destruct rq as [off len| |]; auto. intros H1 H2 H3 j r Hn Ho.
         destruct (Hcov H1 H2 H3 j r Hn Ho) as [[<-|Hin]|Hb]; [right; right; exact Hp|left; exact Hin|right; exact Hb].
@@ -860,9 +877,24 @@ Section Retry.
         * apply set_nth_Forall; [exact Rt|exact I].
   Qed.
 
+  Lemma rrestart s m : RInv s -> RInv (restart idx s m).
+  Proof.
+    intros [Rd Rs Rt Rl]. unfold restart.
+    match goal with |- context [if ?c then _ else _] => destruct c eqn:Ec end.
+    - constructor; cbn; auto.
+      destruct (s_saved s) as [b|]; [|apply andb_true_iff in Ec; destruct Ec; discriminate].
+      intros i Hi. exact (Rs b eq_refl i Hi).
+    - constructor; cbn; auto.
+      + intros i Hi. rewrite nth_repeat_false in Hi. discriminate.
+      + intros b Hb i Hi. inversion Hb; subst b. rewrite nth_repeat_false in Hi. discriminate.
+      + destruct (s_saved s) as [b|]; [|constructor].
+        destruct (m_preload m && m_state m && state_matches idx b); [|constructor].
+        apply Forall_forall. intros th Hin. apply in_map_iff in Hin. destruct Hin as [i [<- _]]. exact I.
+  Qed.
+
   Lemma rstep s l s' : RInv s -> step idx nullid store s l = Some s' -> RInv s'.
   Proof.
-    intros Hinv E. destruct l as [k|k rq|m]; cbn [step] in E.
+    intros Hinv E. destruct l as [k|k rq|m|m|]; cbn [step] in E.
     - destruct (s_crashed s); [discriminate|]. exact (rtstep s k s' Hinv E).
     - destruct (s_crashed s || negb (valid_request idx rq)); [discriminate|].
       destruct Hinv as [Rd Rs Rt Rl].
@@ -873,17 +905,9 @@ Section Retry.
         split; [intro E0; apply app_eq_nil in E0; destruct E0 as [_ E0]; discriminate|]. split; [exact A|].
         destruct (queue th) as [|rq0 q0]; [contradiction|exact B].
       + apply Forall_app. split; [exact Rt|]. constructor; [exact I|constructor].
-    - inversion E; subst s'. destruct Hinv as [Rd Rs Rt Rl]. unfold restart.
-      match goal with |- context [if ?c then _ else _] => destruct c eqn:Ec end.
-      + constructor; cbn; auto.
-        destruct (s_saved s) as [b|]; [|apply andb_true_iff in Ec; destruct Ec; discriminate].
-        intros i Hi. exact (Rs b eq_refl i Hi).
-      + constructor; cbn; auto.
-        * intros i Hi. rewrite nth_repeat_false in Hi. discriminate.
-        * intros b Hb i Hi. inversion Hb; subst b. rewrite nth_repeat_false in Hi. discriminate.
-        * destruct (s_saved s) as [b|]; [|constructor].
-          destruct (m_preload m && m_state m && state_matches idx b); [|constructor].
-          apply Forall_forall. intros th Hin. apply in_map_iff in Hin. destruct Hin as [i [<- _]]. exact I.
+    - inversion E; subst s'. apply rrestart. exact Hinv.
+    - inversion E; subst s'. apply rrestart. exact Hinv.
+    - inversion E; subst s'. destruct Hinv as [Rd Rs Rt Rl]. constructor; cbn; assumption.
   Qed.
 End Retry.
 
